@@ -51,9 +51,17 @@ __CPROVER_ensures(__CPROVER_return_value == ABT_TRUE ==>
 static inline void ABTD_spinlock_release(ABTD_spinlock *p_lock)
 __CPROVER_requires(vf_lock_held == 1 && vf_lock_which == p_lock)
 __CPROVER_requires(VF_LOCK_INV) /* invariant re-established at every release */
-__CPROVER_assigns(vf_lock_held, vf_releases, vf_clock, vf_t_release)
+__CPROVER_assigns(vf_lock_held, vf_releases, vf_clock, vf_t_release
+#ifdef VF_LOCK_REL_GHOST
+                  , VF_LOCK_REL_GHOST /* snapshots of the protected state as it is handed back (to show nothing is written after the release) */
+#endif
+                  )
 __CPROVER_ensures(vf_lock_held == 0 && vf_releases == __CPROVER_old(vf_releases) + 1)
-__CPROVER_ensures(vf_clock == __CPROVER_old(vf_clock) + 1 && vf_t_release == vf_clock);
+__CPROVER_ensures(vf_clock == __CPROVER_old(vf_clock) + 1 && vf_t_release == vf_clock)
+#ifdef VF_LOCK_REL_POST
+__CPROVER_ensures(VF_LOCK_REL_POST)
+#endif
+;
 
 /* the lock word is changed by other threads at any time */
 static inline ABT_bool ABTD_spinlock_is_locked(const ABTD_spinlock *p_lock)
